@@ -108,15 +108,17 @@ theorem inv_null : Inv Style.null := by
 theorem hashOk_null : HashOk Style.null := rfl
 theorem cacheOk_null : CacheOk Style.null := Or.inr (by decide)
 
-theorem init_ok {v c b kw l s} (h : init v c b kw l = .ok s) :
+theorem init_ok {T : StrTables} {v c b kw l s} (h : initT T v c b kw l = .ok s) :
     ∃ c' b', s = { color := c', bgcolor := b',
-                   attributes := if kwSet kw ≠ 0 then kwVal kw else 0, setAttributes := kwSet kw, link := l,
-                   hash := ⟨c', b', some (if kwSet kw ≠ 0 then kwVal kw else 0), some (kwSet kw), l⟩,
-                   isNull := !(kwSet kw ≠ 0 || c.isSome || b.isSome || strTruthy l), styleDef := none } ∧
+                   attributes := if kwSet kw ≠ 0 then kwVal kw else 0, setAttributes := kwSet kw,
+                   link := storedLink v l,
+                   hash := ⟨c', b', some (if kwSet kw ≠ 0 then kwVal kw else 0), some (kwSet kw), storedLink v l⟩,
+                   isNull := !(kwSet kw ≠ 0 || c.isSome || b.isSome || strTruthy (storedLink v l)),
+                   styleDef := none } ∧
       (c = none → c' = none) ∧ (b = none → b' = none) ∧
-      (∀ x, c = some x → ∃ y, makeColor v x = .ok y ∧ c' = some y) ∧
-      (∀ x, b = some x → ∃ y, makeColor v x = .ok y ∧ b' = some y) := by
-  unfold init at h
+      (∀ x, c = some x → ∃ y, makeColorT T v x = .ok y ∧ c' = some y) ∧
+      (∀ x, b = some x → ∃ y, makeColorT T v x = .ok y ∧ b' = some y) := by
+  unfold initT at h
   split at h
   · cases h
   · rename_i c' hc
@@ -128,15 +130,15 @@ theorem init_ok {v c b kw l s} (h : init v c b kw l = .ok s) :
       · intro hn; subst hn; simpa using hc.symm
       · intro hn; subst hn; simpa using hb.symm
       · intro x hx; subst hx
-        cases hm : makeColor v x with
+        cases hm : makeColorT T v x with
         | error e => simp [hm, Except.map] at hc
         | ok y => simp [hm, Except.map] at hc; exact ⟨y, rfl, hc.symm⟩
       · intro x hx; subst hx
-        cases hm : makeColor v x with
+        cases hm : makeColorT T v x with
         | error e => simp [hm, Except.map] at hb
         | ok y => simp [hm, Except.map] at hb; exact ⟨y, rfl, hb.symm⟩
 
-theorem inv_init {v c b kw l s} (h : init v c b kw l = .ok s) : Inv s := by
+theorem inv_init {T : StrTables} {v c b kw l s} (h : initT T v c b kw l = .ok s) : Inv s := by
   obtain ⟨c', b', rfl, hc, hb, _, _⟩ := init_ok h
   refine ⟨?_, kwSet_lt kw, ?_⟩
   · show (if kwSet kw ≠ 0 then kwVal kw else 0) &&& kwSet kw = (if kwSet kw ≠ 0 then kwVal kw else 0)
@@ -149,11 +151,11 @@ theorem inv_init {v c b kw l s} (h : init v c b kw l = .ok s) : Inv s := by
     obtain ⟨⟨⟨h0, hcn⟩, hbn⟩, hl⟩ := hn
     exact ⟨hc hcn, hb hbn, h0, by simp [h0], hl⟩
 
-theorem hashOk_init {v c b kw l s} (h : init v c b kw l = .ok s) : HashOk s := by
+theorem hashOk_init {T : StrTables} {v c b kw l s} (h : initT T v c b kw l = .ok s) : HashOk s := by
   obtain ⟨c', b', rfl, _⟩ := init_ok h
   rfl
 
-theorem cacheOk_init {v c b kw l s} (h : init v c b kw l = .ok s) : CacheOk s := by
+theorem cacheOk_init {T : StrTables} {v c b kw l s} (h : initT T v c b kw l = .ok s) : CacheOk s := by
   obtain ⟨c', b', rfl, _⟩ := init_ok h
   exact Or.inl rfl
 
@@ -276,10 +278,10 @@ theorem cacheOk_strTouch {s : Style} (h : CacheOk s) : CacheOk s.strTouch := by
   rw [this]
   rcases h with h | h <;> simp [str, h]
 
-theorem parse_ok {v d s} (h : parse v d = .ok s) :
-    s = Style.null ∨ ∃ st, parseLoop v (split d) {} = .ok st ∧
-      init v (st.color.map .str) (st.bgcolor.map .str) st.attributes st.link = .ok s := by
-  unfold parse at h
+theorem parse_ok {T : StrTables} {v d s} (h : parseT T v d = .ok s) :
+    s = Style.null ∨ ∃ st, parseLoopT T v (T.split d) {} = .ok st ∧
+      initT T v (st.color.map .str) (st.bgcolor.map .str) st.attributes st.link = .ok s := by
+  unfold parseT at h
   split at h
   · left; cases h; rfl
   · right
@@ -289,12 +291,13 @@ theorem parse_ok {v d s} (h : parse v d = .ok s) :
 
 /-! ### styles reachable through the public constructors -/
 
-/-- Every `Style` that the public constructors can produce (for the code variant `v`). -/
+/-- Every `Style` that the public constructors can produce (for the code variant `v`, whatever the
+interpreter's character tables). -/
 inductive Reachable (v : StyleVariant) : Style → Prop
   | null : Reachable v Style.null
-  | init {c b kw l s} : init v c b kw l = .ok s → Reachable v s
+  | init {T : StrTables} {c b kw l s} : initT T v c b kw l = .ok s → Reachable v s
   | fromColor (c b) : Reachable v (fromColor v c b)
-  | parse {d s} : parse v d = .ok s → Reachable v s
+  | parse {T : StrTables} {d s} : parseT T v d = .ok s → Reachable v s
   | add {a b} : Reachable v a → Reachable v b → Reachable v (add v a b)
   | copy {a} : Reachable v a → Reachable v a.copy
   | updateLink {a} (l) : Reachable v a → Reachable v (updateLink v a l)
@@ -418,8 +421,6 @@ theorem color_add (v : StyleVariant) {a b : Style} (ha : Inv a) (hb : Inv b) :
       simp [h1, h2, hc, hg]
     · simp [h1, h2]
 
-/-- `""` and `None` both mean "no link". -/
-def linkVal (l : Option (List Char)) : Option (List Char) := if strTruthy l then l else none
 
 theorem link_add (v : StyleVariant) {a b : Style} (ha : Inv a) (hb : Inv b) :
     linkVal (add v a b).link = if strTruthy b.link then b.link else linkVal a.link := by
@@ -434,6 +435,111 @@ theorem link_add (v : StyleVariant) {a b : Style} (ha : Inv a) (hb : Inv b) :
       split <;> simp_all
     · simp only [h1, h2, if_false, Bool.false_eq_true, linkOr, linkVal]
       by_cases hl : strTruthy b.link = true <;> simp [hl]
+
+/-! ### the empty-string link, and why the stored `_null` flag cannot be observed through `+` and `==` -/
+
+/-- The stored link is never the empty string. -/
+def LinkOk (s : Style) : Prop := s.link ≠ some []
+
+theorem linkOk_cases {l : Option (List Char)} (h : l ≠ some []) : l = none ∨ strTruthy l = true := by
+  cases l with
+  | none => exact Or.inl rfl
+  | some w =>
+    cases w with
+    | nil => exact absurd rfl h
+    | cons a r => exact Or.inr rfl
+
+theorem storedLink_ok {v : StyleVariant} (hv : v.emptyLink = false) (l : Option (List Char)) :
+    storedLink v l ≠ some [] := by
+  simp only [storedLink, hv, Bool.false_eq_true, if_false, linkVal]
+  cases l with
+  | none => simp [strTruthy]
+  | some w => cases w <;> simp [strTruthy]
+
+@[simp] theorem storedLink_none (v : StyleVariant) : storedLink v none = none := by
+  unfold storedLink linkVal; split <;> simp [strTruthy]
+
+theorem storedLink_truthy (v : StyleVariant) {l : Option (List Char)} (h : strTruthy l = true) :
+    storedLink v l = l := by
+  unfold storedLink linkVal; simp [h]
+
+theorem linkOr_ok {x y : Option (List Char)} (hx : x ≠ some []) (hy : y ≠ some []) : linkOr x y ≠ some [] := by
+  unfold linkOr; split <;> assumption
+
+/-- With the empty-link repair no constructible style stores `""` as its link. -/
+theorem Reachable.linkOk {v : StyleVariant} (hv : v.emptyLink = false) {s} (h : Reachable v s) : LinkOk s := by
+  induction h with
+  | null => simp [LinkOk, Style.null]
+  | init h => obtain ⟨c', b', rfl, _⟩ := init_ok h; exact storedLink_ok hv _
+  | fromColor c b => simp [LinkOk, Style.fromColor]
+  | parse h =>
+    rcases parse_ok h with rfl | ⟨st, _, hi⟩
+    · simp [LinkOk, Style.null]
+    · obtain ⟨c', b', rfl, _⟩ := init_ok hi; exact storedLink_ok hv _
+  | @add a b _ _ iha ihb =>
+    unfold LinkOk Style.add
+    by_cases h1 : b.isNull = true
+    · simp only [h1, if_true]; exact iha
+    · by_cases h2 : a.isNull = true
+      · simp only [h1, h2, if_true, if_false, Bool.false_eq_true]; exact ihb
+      · simp only [h1, h2, if_false, Bool.false_eq_true]; exact linkOr_ok ihb iha
+  | @copy a _ ih =>
+    unfold LinkOk Style.copy
+    split
+    · simp [Style.null]
+    · exact ih
+  | updateLink l _ _ => exact storedLink_ok hv _
+  | @withoutColor a _ ih =>
+    unfold LinkOk Style.withoutColor
+    split
+    · simp [Style.null]
+    · exact ih
+  | strTouch _ ih => exact ih
+
+theorem andNot_zero (a : Nat) : andNot a 0 = a := by simp [andNot]
+theorem zero_andNot (a : Nat) : andNot 0 a = 0 := by simp [andNot]
+
+/-- **The five compared fields of `a + b` are functions of the five compared fields of `a` and `b`
+alone** — the short cuts `if style._null: return self` / `if self._null: return style` give what the
+general merge would give.  Hence the stored `_null` flag (which `without_color`, `update_link` and
+`copy` set to `False` even when nothing is left) is unobservable through `+` and `==`. -/
+theorem add_fields (v : StyleVariant) {a b : Style} (ha : Inv a) (hb : Inv b) (la : LinkOk a) (lb : LinkOk b) :
+    (add v a b).color = b.color.or a.color ∧ (add v a b).bgcolor = b.bgcolor.or a.bgcolor ∧
+    (add v a b).setAttributes = a.setAttributes ||| b.setAttributes ∧
+    (add v a b).attributes = andNot a.attributes b.setAttributes ||| (b.attributes &&& b.setAttributes) ∧
+    (add v a b).link = linkOr b.link a.link := by
+  unfold add
+  by_cases h1 : b.isNull = true
+  · obtain ⟨hc, hg, hs, hat, hl⟩ := hb.null_empty h1
+    have hln : b.link = none := by
+      rcases linkOk_cases lb with h | h
+      · exact h
+      · rw [hl] at h; cases h
+    simp [h1, hc, hg, hs, hat, hln, andNot_zero, linkOr, strTruthy]
+  · by_cases h2 : a.isNull = true
+    · obtain ⟨hc, hg, hs, hat, hl⟩ := ha.null_empty h2
+      have hln : a.link = none := by
+        rcases linkOk_cases la with h | h
+        · exact h
+        · rw [hl] at h; cases h
+      have hlb : linkOr b.link none = b.link := by
+        unfold linkOr
+        rcases linkOk_cases lb with h | h
+        · simp [h, strTruthy]
+        · simp [h]
+      simp [h1, h2, hc, hg, hs, hat, hln, zero_andNot, hb.attrs_sub, hlb]
+    · simp [h1, h2]
+
+/-- `+` respects `==` (whatever the `_null` flags, hashes and caches of the operands). -/
+theorem add_congr (v : StyleVariant) {a a' b b' : Style} (ha : Inv a) (ha' : Inv a') (hb : Inv b) (hb' : Inv b')
+    (la : LinkOk a) (la' : LinkOk a') (lb : LinkOk b) (lb' : LinkOk b')
+    (e1 : eq a a' = true) (e2 : eq b b' = true) : eq (add v a b) (add v a' b') = true := by
+  obtain ⟨c1, g1, s1, t1, l1⟩ := add_fields v ha hb la lb
+  obtain ⟨c2, g2, s2, t2, l2⟩ := add_fields v ha' hb' la' lb'
+  obtain ⟨x1, x2, x3, x4, x5⟩ := eq_iff.mp e1
+  obtain ⟨y1, y2, y3, y4, y5⟩ := eq_iff.mp e2
+  rw [eq_iff, c1, c2, g1, g2, s1, s2, t1, t2, l1, l2, x1, x2, x3, x4, x5, y1, y2, y3, y4, y5]
+  exact ⟨rfl, rfl, rfl, rfl, rfl⟩
 
 end Style
 end RichModel
